@@ -18,7 +18,7 @@ from ..envs import SimFS, bytes_to_bits
 from ..kernel import Engine, call, canon, exc_is
 
 CLASSES = ('Bits', 'BitArray', 'ConstBitStream', 'BitStream')
-KINDS = ('bytes', 'bytearray', 'memoryview', 'bitarray', 'bytesio', 'filename', 'handle', 'mv_cast_H', 'mv_cast_I', 'array_H')
+KINDS = ('bytes', 'bytearray', 'memoryview', 'bitarray', 'bytesio', 'filename', 'handle', 'mv_cast_H', 'mv_cast_I', 'array_H', 'bufreader')
 INT_TYPES = ('uint', 'int', 'uintbe', 'intbe', 'uintle', 'intle', 'uintne', 'intne')
 
 
@@ -182,7 +182,7 @@ class EReject(Engine):
             return self.queue.pop(0) if self.queue else None
         B = self.B
         how = g.pick(['prop', 'prop', 'prop_named', 'slice_int', 'slice_int', 'append_token', 'pack', 'build', 'ctor', 'arr_set', 'arr_append', 'arr_insert',
-                      'arr_extend', 'arr_iop', 'arr_iop', 'illegal_length', 'bad_digits', 'token_len_mismatch', 'ctor_strlen', 'digits', 'digits', 'pack_kwlen', 'typed', 'typed', 'typed'])
+                      'arr_extend', 'arr_iop', 'arr_iop', 'prop_named_str', 'prop_named_str', 'arr_slice_from_array', 'illegal_length', 'bad_digits', 'token_len_mismatch', 'ctor_strlen', 'digits', 'digits', 'pack_kwlen', 'typed', 'typed', 'typed'])
         tgt = g.pick(['ba', 'bs'])
         obj = self.ba if tgt == 'ba' else self.bs
         n = len(obj)
@@ -210,6 +210,11 @@ class EReject(Engine):
             lo, hi = (0, (1 << w) - 1) if d.name.startswith('uint') else (-(1 << (w - 1)), (1 << (w - 1)) - 1)
             ev.update(items=[g.pick([lo, hi, lo + 1, hi - 1, 0, 1, g.int(lo, hi)]) for _ in range(g.int(1, 5))], sym=g.pick(['+', '-', '*', '<<', '//']),
                       v=g.pick([0, 1, 2, -1, 3, hi, 1 << w]))
+        elif how == 'arr_slice_from_array':
+            d = self.arr.dtype
+            w = d.bitlength
+            lo, hi = (0, (1 << w) - 1) if d.name.startswith('uint') else (-(1 << (w - 1)), (1 << (w - 1)) - 1)
+            ev.update(items=[g.pick([lo, hi, 0, g.int(lo, hi)]) for _ in range(g.int(0, 3))], i=g.int(0, 4), j=g.int(0, 4), trailing=g.bits(g.int(0, max(w - 1, 0))))
         elif how in ('arr_set', 'arr_append', 'arr_insert', 'arr_extend'):
             d = self.arr.dtype
             ev.update(v=boundary_values(g, d.name, d.bitlength), i=g.int(-2, 5), v2=boundary_values(g, d.name, d.bitlength))
@@ -229,6 +234,13 @@ class EReject(Engine):
             allowed, pool = TYPED[name]
             ln = g.pick(list(allowed)) if g.chance(0.5) else g.pick(TYPED_LENGTHS)
             ev.update(name=name, length=ln, vi=g.int(0, len(pool) - 1), route=g.pick(TYPED_ROUTES), cls=g.pick(CLASSES), pos=g.int(0, n))
+        elif how == 'prop_named_str':
+            # a length-carrying property name for a digit / bytes / bits type (s.hex8 = ..., s.bytes2 = ...): used once with a value of
+            # that length, then with a value of another length
+            name = g.pick(['hex', 'bin', 'oct', 'bytes', 'bits'])
+            per = {'hex': 4, 'bin': 1, 'oct': 3, 'bytes': 8, 'bits': 1}[name]
+            k = g.int(1, 4)
+            ev.update(name=name, units=k, k2=g.pick([k, k, k - 1, k + 1, k + 2, 0]), dseed=g.int(0, 10 ** 6), warm=g.chance(0.8))
         elif how == 'pack_kwlen':
             name = g.pick(['bits', 'hex', 'bin', 'oct', 'uint', 'int'])
             per = {'hex': 4, 'bin': 1, 'oct': 3, 'bits': 1, 'uint': 1, 'int': 1}[name]
@@ -300,6 +312,9 @@ class EReject(Engine):
                 st, x = call(C, bitarray=ba, **kw)
             elif kind == 'bytesio':
                 st, x = call(C, io.BytesIO(data), **kw)
+            elif kind == 'bufreader':
+                # a buffered reader that is not a named file (pipe, wrapped in-memory stream)
+                st, x = call(C, io.BufferedReader(io.BytesIO(data)), **kw)
             elif kind == 'filename':
                 st, x = call(C, filename=self.path, **kw)
             elif kind == 'handle':
@@ -408,6 +423,26 @@ class EReject(Engine):
                 else:
                     st, r = call(lambda: C(**{name: v, 'length': w}))
                 new_obj, want_len = (r if st == 'ok' else None), w
+        elif how == 'arr_slice_from_array':
+            # a[i:j] = <Array of the same dtype, possibly with trailing bits of its own>: the ITEMS are assigned, so the data
+            # changes by whole items only
+            d = self.arr.dtype
+            w = d.bitlength
+            items = [x_ for x_ in ev.get('items', []) if isinstance(x_, int) and not isinstance(x_, bool) and in_range(d.name, w, x_)][:4]
+            tr = ''.join(c for c in str(ev.get('trailing', '')) if c in '01')[:max(w - 1, 0)]
+            st0, src = call(B.Array, str(d), items, '0b' + tr if tr else None)
+            if st0 != 'ok':
+                return {'skip': 'source Array could not be built'}, []
+            na = len(self.arr)
+            i_ = min(max(ev.get('i', 0) if isinstance(ev.get('i', 0), int) else 0, 0), na)
+            j_ = min(max(ev.get('j', 0) if isinstance(ev.get('j', 0), int) else 0, i_), na)
+            if len(before['arr']) % w:
+                return {'skip': 'target has trailing bits'}, []
+            expect = True
+            changed_key = 'arr'
+            want_len = len(before['arr']) + (len(items) - (j_ - i_)) * w
+            trig = 'arr_slice_from_array' + ('|source-has-trailing-bits' if tr else '')
+            st, r = call(self.arr.__setitem__, slice(i_, j_), src)
         elif how == 'arr_iop':
             import operator as _op
             d = self.arr.dtype
@@ -573,6 +608,29 @@ class EReject(Engine):
                     new_obj, want_len = r.data, eff
             if expect and eff is None and st == 'ok':
                 want_len = None       # self-delimiting code: the length is the codeword's (C10, not judged here)
+        elif how == 'prop_named_str':
+            name = ev.get('name') if ev.get('name') in ('hex', 'bin', 'oct', 'bytes', 'bits') else 'hex'
+            per = {'hex': 4, 'bin': 1, 'oct': 3, 'bytes': 8, 'bits': 1}[name]
+            k = ev.get('units', 1) if isinstance(ev.get('units', 1), int) and 0 < ev.get('units', 1) <= 8 else 1
+            k2 = ev.get('k2', k) if isinstance(ev.get('k2', k), int) and 0 <= ev.get('k2', k) <= 12 else k
+            r_ = kernel.Gen(ev.get('dseed', 0) if isinstance(ev.get('dseed', 0), int) else 0)
+
+            def mkval(units):
+                if name == 'bytes':
+                    return bytes(r_.int(0, 255) for _ in range(units))
+                digs = ''.join(r_.pick({'hex': '0123456789abcdef', 'bin': '01', 'oct': '01234567', 'bits': '01'}[name]) for _ in range(units))
+                return ('0b' + digs if digs else '') if name == 'bits' else digs
+            # stated length: in the unit of the token for bytes (bytes2 = 2 bytes), in bits otherwise
+            stated = k if name == 'bytes' else per * k
+            attr = f'{name}{stated}'
+            if ev.get('warm'):
+                call(setattr, tgt, attr, mkval(k))          # a first, fitting use of this very name
+                before = self._snap()
+                n = len(tgt)
+            expect = (k2 == k)
+            changed_key, want_len = tgt_name, per * k
+            trig = f'prop-named:{name}' + ('|after-a-fitting-use' if ev.get('warm') else '')
+            st, r = call(setattr, tgt, attr, mkval(k2))
         elif how == 'pack_kwlen':
             # the length of a token given as a keyword must agree with the value exactly as a literal length must
             name = ev.get('name') if ev.get('name') in ('bits', 'hex', 'bin', 'oct', 'uint', 'int') else 'bits'
